@@ -18,6 +18,7 @@ type solverSpec struct {
 
 var (
 	z3new = solverSpec{name: "z3-5.1.0", cmd: []string{"z3-new", "-in", "-smt2"}}
+	z3em  = solverSpec{name: "z3-5.1.0/ematching", cmd: []string{"z3-new", "-in", "-smt2", "smt.mbqi=false", "smt.auto_config=false"}}
 	z3old = solverSpec{name: "z3-4.8.12", cmd: []string{"/usr/bin/z3", "-in", "-smt2"}}
 	cvc5  = solverSpec{name: "cvc5-1.0", cmd: []string{"cvc5", "--lang", "smt2", "--strings-exp", "--incremental"}, cvc: true}
 )
@@ -47,6 +48,10 @@ func (u *Unit) query(ob *Obligation, forCVC bool, withModel bool) string {
 			b.WriteByte('\n')
 		case cmdOblig:
 			if c.ob.Canary || ob.Canary {
+				continue
+			}
+			// obligations about end states (returns, back edges, loop entry) cannot help later program points
+			if c.ob.Kind == "ensures" || c.ob.Kind == "inv-step" || c.ob.Kind == "inv-init" {
 				continue
 			}
 			fmt.Fprintf(&b, "(assert %s)\n", implies(c.ob.Guard, c.ob.Cond))
@@ -121,8 +126,14 @@ func (u *Unit) solve(ob *Obligation, tier string) {
 		t1, t2 = 30*time.Second, 60*time.Second
 	}
 	q := u.query(ob, false, false)
-	r := runSolver(z3new, q, t1)
+	// pure E-matching first: answers in milliseconds when the triggers fit, "unknown" otherwise
+	r := runSolver(z3em, q, t1)
 	total := r.ms
+	if r.result != "unsat" {
+		r2 := runSolver(z3new, q, t1)
+		total += r2.ms
+		r = r2
+	}
 	if r.result != "unsat" && r.result != "sat" {
 		// race the other two
 		var wg sync.WaitGroup
